@@ -2,7 +2,8 @@
 (* Tables over a small pool x option sets x request methods x paths: operational QuickMatch = declarative C06 order. *)
 EXTENDS RuxResolve, Json
 
-CONSTANTS Intercepts     \* names of intercept spellings explored: subset of {"off", "/a", "a", "/a/", "/zz"}
+CONSTANTS Stricts,       \* subset of BOOLEAN: StrictLastSlash off / on
+          Intercepts     \* names of intercept spellings explored: subset of {"off", "/a", "a", "/a/", "/zz"}
 
 IcptOf(n) == CASE n = "off" -> <<>>
                [] n = "/a"  -> <<"/", "a">>
@@ -11,15 +12,18 @@ IcptOf(n) == CASE n = "off" -> <<>>
                [] n = " /a " -> <<"SP", "/", "a", "SP">>
 
 Init == /\ IndexInit
-        /\ opts \in { [hmna |-> a, hfb |-> b, icpt |-> IcptOf(n)] : a \in BOOLEAN, b \in BOOLEAN, n \in Intercepts }
+        /\ opts \in { [hmna |-> a, hfb |-> b, icpt |-> IcptOf(n), strict |-> st] : a \in BOOLEAN, b \in BOOLEAN, n \in Intercepts, st \in Stricts }
+\* a pattern that ends in '/' is a route of its own only on a strict router (otherwise registration removes the slash)
+EndsSlash(i) == IsStatic(Pool[i]) /\ LET t == TextOf(Pool[i][1]) IN Len(t) > 1 /\ t[Len(t)] = "/"
 Next == /\ Len(tbl) < MaxTable
-        /\ \E i \in 1..NP, ms \in MethodSets : Register(i, ms)
+        /\ \E i \in 1..NP, ms \in MethodSets : (opts.strict \/ ~EndsSlash(i)) /\ Register(i, ms)
         /\ UNCHANGED opts
 
-QSeq == SetToSeq(ReqQs)
-Line == [t |-> tbl, opts |-> [hmna |-> opts.hmna, hfb |-> opts.hfb, icpt |-> opts.icpt],
+QSeq == SetToSeq(ReqQsStrict)
+Line == [t |-> tbl, opts |-> [hmna |-> opts.hmna, hfb |-> opts.hfb, icpt |-> opts.icpt, strict |-> opts.strict],
          effq |-> IF opts.icpt = <<>> THEN 0 ELSE EffQ(1, FALSE),
-         res |-> [m \in ReqMethods |-> [x \in 1..Len(QSeq) |-> Code(Resolve(m, QSeq[x]))]]]
+         nq  |-> [x \in 1..Len(QSeq) |-> RQ(QSeq[x])],
+         res |-> [m \in ReqMethods |-> [x \in 1..Len(QSeq) |-> Code(Resolve(m, RQ(QSeq[x])))]]]
 Emit == PrintT(ToJson(Line))
 
 ASSUME PrintT(ToJson([hdr |-> 1, pool |-> PoolText, names |-> [i \in 1..NP |-> Names(Pool[i])],
